@@ -295,6 +295,122 @@ pub fn run(ctx: &Ctx) -> Report {
         }
     });
     rep.merge(r);
+
+    // ---- the same clauses when the client takes the TLS upgrade the greeting offers: SSLRequests
+    //      and inner handshake responses of every legal shape (capability masks, max-packet,
+    //      charset, MariaDB-style extended capabilities in the reserved bytes), accept and reject
+    if let Some(tm) = tls.as_ref() {
+        let n = ctx.n(400, 20_000);
+        let r = par_cases(ctx, "C11", "tls-upgrade", n, |rng, i, rep| {
+            let user: Vec<u8> = user_name(rng, i).into_iter().filter(|b| *b != 0).take(300).collect();
+            let reject = i % 5 == 3;
+            let depth = (i % 3) as usize;
+            let mut cmds = Vec::new();
+            let mut scripts = Vec::new();
+            for k in 0..depth {
+                cmds.push(Cmd::query(format!("q{}", k).as_bytes()));
+                scripts.push(Script::Q(QProg::completed(k as u64, 0)));
+            }
+            let variant = if i % 4 == 0 { 0 } else { rng.next() | 1 };
+            let seqs = if rng.chance(1, 4) { (rng.below(250) as u8, rng.below(250) as u8) } else { (1, 2) };
+            let c = super::c18::TlsCase { tls13: rng.bool(), with_cert: false, server_mode: 0, user: user.clone(), cmds, scripts, first_cut: if rng.bool() { rng.range(1, 80) as usize } else { 0 }, cycle: if rng.bool() { vec![] } else { vec![rng.range(1, 300) as usize] }, write_limit: usize::MAX, close_notify: true, raw_limit: None, hs_variant: variant, app_override: None, seqs, auth_reject: if reject { Some(4243) } else { None }, record_per_command: rng.bool() };
+            let o = match super::c18::run_tls(tm, &c) {
+                Ok(o) => o,
+                Err(e) => {
+                    rep.inconclusive.push(format!("TLS harness error: {}", e));
+                    return;
+                }
+            };
+            rep.evaluations += 1;
+            rep.counters.class(format!("tls upgrade: {} SSLRequest, user={}, {}, depth={}", if variant == 0 { "classic" } else { "varied" }, user_class(&user), if reject { "reject" } else { "accept" }, depth));
+            let d = || J::obj().set("transport", "TLS upgrade").set("sslrequest_and_response_variant", format!("{:#x}", variant)).set("sslrequest_payload", hex(&o.world.client_raw[4.min(o.world.client_raw.len())..36.min(o.world.client_raw.len())])).set("user", show(&user)).set("ids", format!("{:?}", seqs)).set("shim", if reject { "rejects" } else { "accepts" }).set("outcome", o.outcome.describe());
+            if i < 1 {
+                rep.sample(d());
+            }
+            let mut fail = |sig: &str, what: String, rep: &mut Report| rep.violations.push(viol("C11", format!("C11 tls:{}", sig), what, d()));
+            if let Outcome::Panic { file, line, msg } = &o.outcome {
+                if is_harness_file(file) {
+                    rep.inconclusive.push(format!("harness panic at {}:{}", file, line));
+                    return;
+                }
+                fail(&panic_signature(file, *line, msg), format!("run_on panicked during a TLS connection phase: {}", o.outcome.describe()), rep);
+                return;
+            }
+            if let Some(e) = &o.world.client_error {
+                fail("client-rejects-server-bytes", format!("the TLS client rejected the server's bytes: {}", e), rep);
+                return;
+            }
+            if o.world.deadlock {
+                fail("deadlock", "the server waits for input while the TLS client waits for the server".into(), rep);
+                return;
+            }
+            let auths: Vec<&Cb> = o.log.cbs.iter().filter(|c| matches!(c.kind, CbKind::Auth { .. })).collect();
+            let commands: Vec<&Cb> = o.log.cbs.iter().filter(|c| !matches!(c.kind, CbKind::Auth { .. })).collect();
+            if auths.len() != 1 {
+                fail("auth-count", format!("after_authentication was called {} times (run_on returned {})", auths.len(), o.outcome.describe()), rep);
+                return;
+            }
+            if let CbKind::Auth { user: got, .. } = &auths[0].kind {
+                if got.as_deref() != Some(&user[..]) {
+                    fail("user-name-differs", format!("after_authentication saw user {:?}, the client sent {}", got.as_ref().map(|u| show(u)), show(&user)), rep);
+                    return;
+                }
+            }
+            if let Some(cb) = commands.first() {
+                if cb.ev_start < auths[0].ev_end {
+                    fail("command-before-auth", format!("{} started before after_authentication returned", cb_summary(cb)), rep);
+                    return;
+                }
+            }
+            rep.counters.inc("auth_events_checked");
+            rep.counters.inc("auth_events_checked_over_tls");
+            let (pk, _) = wire::packets_prefix(&o.world.app_in);
+            let (msgs, _) = wire::messages_prefix(&o.world.app_in, &pk);
+            let want_seq = seqs.1.wrapping_add(1);
+            let first = msgs.first();
+            if reject {
+                match first.map(|m| (m.seq_first, wire::parse_err(&m.payload))) {
+                    Some((seq, Ok(e))) if e.code == 1045 && &e.state == b"28000" && seq == want_seq => {}
+                    other => {
+                        fail("reject-reply", format!("rejected login over TLS answered by {:?}, expected ERR 1045/28000 with id {}", other, want_seq), rep);
+                        return;
+                    }
+                }
+                if o.outcome != Outcome::Token(4243) {
+                    fail("reject-error-not-returned", format!("run_on returned {} instead of the shim's own error", o.outcome.describe()), rep);
+                    return;
+                }
+                if !commands.is_empty() || msgs.len() > 1 {
+                    fail("served-after-reject", format!("{} callbacks / {} messages after the rejection", commands.len(), msgs.len() - 1), rep);
+                    return;
+                }
+                rep.counters.inc("rejections");
+                rep.counters.inc("callbacks_suppressed_after_reject_checked");
+            } else {
+                match first.map(|m| (m.seq_first, wire::parse_ok(&m.payload), m.payload.first().copied())) {
+                    Some((seq, Ok(_), Some(0))) if seq == want_seq => {}
+                    other => {
+                        fail("accept-reply", format!("accepted login over TLS answered by {:?}, expected OK with id {}", other.map(|x| (x.0, x.2)), want_seq), rep);
+                        return;
+                    }
+                }
+                if o.outcome != Outcome::Ok {
+                    fail("run_on-not-ok", format!("run_on returned {} after an accepted TLS login and well-formed commands", o.outcome.describe()), rep);
+                    return;
+                }
+                if commands.len() != depth || msgs.len() != 1 + depth {
+                    fail("pipelined-commands", format!("{} callbacks and {} replies for {} commands behind the handshake", commands.len(), msgs.len().saturating_sub(1), depth), rep);
+                    return;
+                }
+                rep.counters.inc("accepts");
+                rep.counters.inc("accepts_over_tls");
+            }
+        });
+        rep.merge(r);
+        if ctx.strict() {
+            rep.require("accepts_over_tls", 50);
+        }
+    }
     if ctx.strict() {
         rep.require("greetings_parsed", 1000);
         rep.require("rejections", 100);
